@@ -10,10 +10,10 @@ _built = {}
 
 def build(name, release=False, rustflags=None):
     """cargo-build /verif/replay/<name> against /repo's current tree; returns the binary path (or raises)"""
-    key = (name, release)
+    key = (name, release, rustflags)
     if key in _built: return _built[key]
     d = os.path.join(ROOT, 'replay', name)
-    tgt = os.path.join(CACHE, 'replay-target-' + name)
+    tgt = os.path.join(CACHE, 'replay-target-' + name + ('-verif' if rustflags else ''))
     os.makedirs(tgt, exist_ok=True)
     env = dict(os.environ); env['CARGO_TARGET_DIR'] = tgt; env['CARGO_NET_OFFLINE'] = 'true'
     if rustflags: env['RUSTFLAGS'] = rustflags
